@@ -121,6 +121,10 @@ def gen_sequence(g, length):
             kind = "construct" if r.random() < 0.65 else "deconstruct"
             reif = kind == "construct" and r.random() < 0.45
             base = fam_bql.clean_base(g, max_clauses=2, p_alias=0.15)
+            if r.random() < 0.25:
+                # one broad clause with many rows per statement (anchors, ids, numbers that differ only slightly):
+                # the template is instantiated once per row
+                base = fam_bql.broad_base(g)
             sources = r.sample(NAMES[:2], r.choice([1, 1, 2]))
             if r.random() < 0.06:
                 sources = sources + [UNKNOWN]
@@ -164,7 +168,7 @@ def check(prop):
     vlib.build_harness(["bqldrv"])
     d = vlib.scratch("stmt-")
     g = Gen(vlib.seed() * 7919 + 4)
-    nseq, length = (60, 10) if tier == "quick" else (1500, 12)
+    nseq, length = (160, 10) if tier == "quick" else (2500, 12)
     # Pass 1 (dry run, stateless): learn which kinds the bindings of each WHERE pattern take on a
     # typical content, so that templates mostly (not always) use bindings of the right kind.
     seqs = [gen_sequence(g, length) for _ in range(nseq)]
@@ -179,7 +183,9 @@ def check(prop):
     cases = []
     meta = []
     for si, seq in enumerate(seqs):
-        init = [sorted(g.rng.sample(range(1, len(bqlu.TRIPLES) + 1), g.rng.randint(3, 10))) for _ in range(2)] + [[]]
+        # two source graphs (random triples plus one whole near-miss group each) and an empty one
+        init = [sorted(set(g.rng.sample(range(1, len(bqlu.TRIPLES) + 1), g.rng.randint(3, 10))) | set(g.rng.choice(fam_bql.NEAR_GROUPS)))
+                for _ in range(2)] + [[]]
         cases.append({"id": len(cases), "mode": "reset", "graphs": init, "text": ""})
         meta.append(None)
         for ti, st in enumerate(seq):
